@@ -213,11 +213,20 @@ static int loads(const uint8_t *b, size_t n) {
     return 0;
 }
 
+/* the loader's verdict must not depend on what the process loaded before: every damaged image is presented right
+ * after the intact one (a cache of "already verified" images, keyed by anything short of the whole content, would
+ * accept the damaged copy) */
+static void prime(const uint8_t *b, size_t n) {
+    NvmModule *m = nvm_deserialize(b, (uint32_t)n);
+    if (m) nvm_module_free(m);
+}
+
 static void do_flipall(char *arg) {
     size_t n; uint8_t *b = unhex(arg, &n);
     if (!b) { puts("bad-op"); return; }
     size_t flips = 0, acc = 0; long first = -1;
     for (size_t bit = (size_t)NVM_HEADER_SIZE * 8; bit < n * 8; bit++) {
+        prime(b, n);
         b[bit / 8] ^= (uint8_t)(1u << (bit % 8));
         NvmModule *m = nvm_deserialize(b, (uint32_t)n);
         if (m) { acc++; if (first < 0) first = (long)bit; nvm_module_free(m); }
@@ -235,6 +244,7 @@ static void do_bytexor(char *arg) {
     size_t tries = 0, acc = 0; char first[64] = "-";
     for (size_t i = NVM_HEADER_SIZE; i < n; i++) {
         for (unsigned x = 1; x < 256; x++) {
+            if ((x & 15) == 1) prime(b, n);
             b[i] ^= (uint8_t)x;
             NvmModule *m = nvm_deserialize(b, (uint32_t)n);
             if (m) { acc++; if (first[0] == '-') snprintf(first, sizeof first, "%zu:%u", i, x); nvm_module_free(m); }
@@ -274,6 +284,7 @@ static void do_bursts(char *arg) {
         size_t off = (size_t)(xs(&st) % (body_bits - len + 1));
         uint32_t pat = (uint32_t)xs(&st);
         pat |= 1u; if (len < 32) pat &= (1u << len) - 1; pat |= 1u << (len - 1);
+        if ((it & 7) == 0) prime(b, n);
         for (unsigned k = 0; k < len; k++) if (pat >> k & 1) { size_t bit = (size_t)NVM_HEADER_SIZE * 8 + off + k; b[bit / 8] ^= (uint8_t)(1u << (bit % 8)); }
         NvmModule *m = nvm_deserialize(b, (uint32_t)n);
         if (m) { acc++; if (first[0] == '-') snprintf(first, sizeof first, "%zu:%u:%u", off, len, pat); nvm_module_free(m); }
